@@ -16,8 +16,9 @@
 (* Event order.  Worker-side events are emitted before their effect becomes *)
 (* visible (t_end before the send into the queue), so they never lag.  One  *)
 (* application-side event is emitted AFTER a resource was released:         *)
-(* `a_recv` (the dequeue frees a permit of the application-facing queue     *)
-(* that the worker may use before the event is written).  Such an event may *)
+(* `a_recv` / `d_recv` (the dequeue frees a permit of the application-      *)
+(* facing queue that the worker may use before the event is written).  Such *)
+(* an event may                                                             *)
 (* therefore be consumed up to Look positions early (EarlyRecv); TLC        *)
 (* searches for a consistent placement.                                     *)
 (***************************************************************************)
@@ -91,6 +92,14 @@ Step ==
             /\ RecvAs(E.call, E.match = 1) /\ Consume
        [] E.ev = "a_none" -> RecvClosed(E.call) /\ Consume
        [] E.ev = "a_drop" -> Cancel(E.call) /\ Consume
+       \* the datagram path: the worker reserves the (capacity CapDg) slot, reads a datagram, hands it over;
+       \* receivers are not modelled as callers - only what they take and when they may see the queue closed
+       [] E.ev = "w_dg" ->
+            IF dgSlot = dgSent THEN PeerDgram /\ Stay                                  \* silent: the peer sent it
+            ELSE WAcceptDg /\ Consume
+       [] E.ev = "d_recv" -> RecvDg /\ Consume
+       [] E.ev \in {"d_call", "d_lock"} -> UNCHANGED vars /\ Consume
+       [] E.ev = "d_none" -> wpc = "done" /\ result # "none" /\ UNCHANGED vars /\ Consume
        [] E.ev = "w_exit" ->
             IF wpc = "failing" /\ cause = CauseName(E.cause) THEN UNCHANGED vars /\ Consume   \* left through an Err item
             ELSE Arise(CauseName(E.cause)) /\ Consume
@@ -105,10 +114,11 @@ Skip == l <= Len(Rec) /\ l \in taken /\ l' = l + 1 /\ taken' = taken \ {l} /\ UN
 EarlyRecv ==
   /\ l <= Len(Rec)
   /\ \E j \in (l + 1)..(IF l + Look < Len(Rec) THEN l + Look ELSE Len(Rec)) :
-       /\ j \notin taken /\ Rec[j].ev = "a_recv"
+       /\ j \notin taken /\ Rec[j].ev \in {"a_recv", "d_recv"}
        /\ \A k \in l..j : Rec[k].ev # "m_reset"
-       /\ Ch(Wants[Rec[j].call]) # <<>> /\ Head(Ch(Wants[Rec[j].call])) = Rec[j].id
-       /\ RecvAs(Rec[j].call, Rec[j].match = 1)
+       /\ IF Rec[j].ev = "d_recv" THEN RecvDg
+          ELSE /\ Ch(Wants[Rec[j].call]) # <<>> /\ Head(Ch(Wants[Rec[j].call])) = Rec[j].id
+               /\ RecvAs(Rec[j].call, Rec[j].match = 1)
        /\ taken' = taken \cup {j} /\ UNCHANGED l
 
 TInit == Init /\ l = 1 /\ taken = {}
